@@ -132,7 +132,7 @@ def run(ctx: Ctx) -> None:
     _PARAMS.update(calls=sorted(params[0]["calls"], key=lambda c: (c["pop"], c["goals"], c["coins"])),
                    draws=params[0]["draws"])
     n_exh = len(behs)
-    n_sim = 150 if ctx.quick else 3000
+    n_sim = 60 if ctx.quick else 1500
     sims = ctx.simulate("MC_Ranking", "MC_Ranking_sim.cfg", num=n_sim, depth=70)
     for st in sims:
         if st["scen"] == "rank" and len(st["P"]) == st["target"] and len(st["hist"]) == 2:
@@ -160,21 +160,27 @@ def run(ctx: Ctx) -> None:
     nomask = {k: "0" for k in masks}
     ctx.notes["masks_bulk_run"] = masks
 
-    # stage 1: unmasked samples (first/last populations, large random ones, some select cases; twin
-    # populations with only the TWINS mask off): confirm the open findings, stop a mass violation early
+    # stage 1: an unmasked sample (first/last populations, twin populations, large random ones, some
+    # select cases), one trace per call so that every failing call is reported: confirms the open
+    # findings and stops a mass violation early
     rank_idx = [i for i, t in enumerate(traces) if t["kind"] == "rank"]
     sel_idx = [i for i, t in enumerate(traces) if t["kind"] == "select"]
     twins = [i for i in rank_idx if traces[i]["share"]]
     big = [i for i in rank_idx if len(traces[i]["P"]) > 4]
-    sample = sorted(set(rank_idx[:200] + rank_idx[-200:] + big[:100] + sel_idx[::7][:40]))
-    sigs: set[str] = set()
-    for idxs, env in ((sample, nomask), (twins[:300], dict(masks, C14_MASK_TWINS="0"))):
-        if idxs:
-            sub = [traces[i] for i in idxs]
-            sigs |= _report(ctx, sub, [behs[i] for i in idxs],
-                            ctx.validate("RankingTrace", sub, env=env, chunk=2000))
+    m = 60 if ctx.quick else 300
+    sample, origin = [], []
+    for i in sorted(set(rank_idx[:m] + rank_idx[-m:] + twins[:2 * m] + big[:m // 2])):
+        evs = traces[i]["ev"]
+        for j in range(0, len(evs), 2):
+            sample.append(dict(traces[i], ev=evs[j:j + 2]))
+            origin.append(i)
+    for i in sel_idx[::5][:m]:
+        sample.append(traces[i])
+        origin.append(i)
+    sigs = _report(ctx, sample, [behs[i] for i in origin],
+                   ctx.validate("RankingTrace", sample, env=nomask, chunk=-(-len(sample) // 2)))
+    ctx.notes["sample_unmasked_traces"] = len(sample)
     unknown = sigs - known
-    ctx.notes["sample_unmasked_traces"] = len(sample) + len(twins[:300])
     if unknown:
         ctx.notes["bulk_run"] = "skipped: the unmasked sample already shows new violations"
     else:
